@@ -892,7 +892,14 @@ func (x *Exec) ptrPlace(fr *Frame, n *Node, st *State, v ssa.Value) *Place {
 func (x *Exec) ptrPlaceT(fr *Frame, n *Node, ref Term, pos token.Pos) *Place {
 	et := deref(ref.T)
 	if fr != nil {
-		x.safety(fr, n, app("not", app("=", ref.S, "0")), "nil-deref", pos, fr.derefDetail)
+		detail := fr.derefDetail
+		if detail == "" {
+			// a whole-value load through a pointer (`*p`, a value-receiver method call on a pointer): name the pointee type
+			if nt, ok := types.Unalias(et).(*types.Named); ok {
+				detail = nt.Obj().Name()
+			}
+		}
+		x.safety(fr, n, app("not", app("=", ref.S, "0")), "nil-deref", pos, detail)
 	}
 	switch et.Underlying().(type) {
 	case *types.Struct:
